@@ -457,6 +457,122 @@ fn run_siblings(front: std::net::SocketAddr, s: &Scn) -> Res {
     Res { name: s.name, summary, viols }
 }
 
+/// Faults of an h2c backend (h2bb::h2c_fault_backend behind `/hf`), with a sibling upload in flight on the
+/// same frontend connection (and the same backend connection).  Whatever the backend does, the client gets
+/// an explicit outcome on the faulty stream (a final status, or RST_STREAM), a response cut short is never
+/// presented as complete, the frontend connection keeps answering, the sibling is answered (200 unless its
+/// backend connection went away, then any explicit outcome).
+const FAULTS: [&str; 7] = ["rst_first", "refused", "goaway_first", "close_first", "rst_mid", "close_mid", "goaway_mid"];
+
+fn run_fault(front: std::net::SocketAddr, name: &'static str) -> Res {
+    let mut viols: Vec<(String, String)> = vec![];
+    let Some(mut p) = Peer::connect(front) else {
+        return Res { name, summary: "connect-failed".into(), viols: vec![("bb-infra".into(), format!("fault {name}: could not connect"))] };
+    };
+    if !p.handshake(&[]) {
+        return Res { name, summary: "handshake-failed".into(), viols: vec![("bb-infra".into(), format!("fault {name}: H2 handshake failed"))] };
+    }
+    let mut dec = loona_hpack::Decoder::new();
+    p.send(&frame(T_HEADERS, 4, 1, &request_block(true, "/hf/sibling")));
+    let mut all = p.read_until(Duration::from_millis(200), |_| false);
+    p.send(&frame(T_HEADERS, 5, 3, &request_block(false, &format!("/hf/fault/{name}"))));
+    // outcome of the faulty stream: END_STREAM or RST_STREAM on 3 (or the connection going away)
+    // (a GOAWAY(NO_ERROR) from sozu does not end a stream in flight; a closed connection ends the read by itself)
+    let ended = |f: &[Fr], sid: u32| f.iter().any(|x| (x.t == T_GOAWAY && x.code() != Some(NO_ERROR)) || (x.sid == sid && (x.t == T_RST || ((x.t == T_HEADERS || x.t == T_DATA) && x.flags & 1 == 1))));
+    all.extend(p.read_until(Duration::from_secs(6), |f| ended(f, 3)));
+    let victim_closed_conn = p.closed;
+    if !p.closed {
+        p.send(&[frame(T_DATA, 1, 1, b"sibling-body"), frame(T_PING, 0, 0, b"faulty??")].concat());
+        all.extend(p.read_until(Duration::from_secs(6), |f| ended(f, 1) && f.iter().any(|x| x.t == T_PING && x.flags & 1 == 1)));
+    }
+    // digest per stream (header blocks decoded in arrival order: one HPACK context)
+    let mut status = [0u32; 2];
+    let mut body = [0usize; 2];
+    let mut end = ["open"; 2];
+    let mut rst = [None; 2];
+    for f in &all {
+        let i = match f.sid {
+            1 => 0,
+            3 => 1,
+            _ => continue,
+        };
+        match f.t {
+            T_HEADERS => {
+                let mut st = 0u32;
+                let _ = dec.decode_with_cb(&f.payload, |k, v| {
+                    if &k[..] == b":status" {
+                        st = String::from_utf8_lossy(&v).parse().unwrap_or(0);
+                    }
+                });
+                if st >= 200 || status[i] == 0 {
+                    status[i] = st;
+                }
+                if f.flags & 1 == 1 {
+                    end[i] = "clean";
+                }
+            }
+            T_DATA => {
+                body[i] += f.payload.len();
+                if f.flags & 1 == 1 {
+                    end[i] = "clean";
+                }
+            }
+            T_RST => {
+                rst[i] = f.code();
+                if end[i] == "open" {
+                    end[i] = "reset";
+                }
+            }
+            _ => {}
+        }
+    }
+    let goaway = all.iter().find(|x| x.t == T_GOAWAY).and_then(|x| x.code());
+    let ping = all.iter().any(|x| x.t == T_PING && x.flags & 1 == 1 && x.payload == b"faulty??");
+    let summary = format!(
+        "victim status={} end={} rst={:?} body={} | sibling status={} end={} rst={:?} | goaway={goaway:?} ping={ping} closed={}",
+        status[1], end[1], rst[1], body[1], status[0], end[0], rst[0], p.closed
+    );
+    let mut bad = |class: &str, text: String| viols.push((class.to_string(), format!("fault {name}: {text} [{summary}]")));
+    if goaway.is_some_and(|c| c != NO_ERROR) || victim_closed_conn || (p.closed && goaway.is_none()) {
+        bad("bb-fault-kills-connection", "a fault of the backend on one stream took the client's whole connection down".into());
+    } else if !ping {
+        bad("bb-wedged", "no PING acknowledgement after the backend fault".into());
+    }
+    match name {
+        "rst_first" | "refused" | "goaway_first" | "close_first" => {
+            if end[1] == "open" {
+                bad("bb-fault-unanswered", "the request whose backend failed before answering got neither a final response nor RST_STREAM within 6 s".into());
+            } else if end[1] == "clean" && !matches!(status[1], 200 | 502 | 503 | 504) {
+                bad("bb-fault-status", format!("unexpected final status {}", status[1]));
+            }
+        }
+        "rst_mid" | "close_mid" => {
+            if end[1] == "clean" {
+                bad("bb-fault-truncated-clean", format!("the backend gave up after {FAULT_SENT} of {FAULT_BODY} announced bytes and the client saw the stream end cleanly with {} bytes", body[1]));
+            } else if end[1] == "open" {
+                bad("bb-fault-unanswered", "the response cut short by the backend was neither reset nor ended within 6 s".into());
+            }
+            if body[1] > FAULT_SENT {
+                bad("bb-fault-body", format!("{} body bytes relayed, the backend sent {FAULT_SENT}", body[1]));
+            }
+        }
+        _ => {
+            // goaway_mid: a graceful GOAWAY covering the stream does not cut it
+            if !(status[1] == 200 && end[1] == "clean" && body[1] == FAULT_BODY) {
+                bad("bb-fault-goaway-cut", format!("GOAWAY(NO_ERROR) covering the stream, then the rest of the body: the client must get all {FAULT_BODY} bytes"));
+            }
+        }
+    }
+    // the sibling: same frontend connection, same backend connection
+    let backend_conn_lost = matches!(name, "close_first" | "close_mid");
+    if end[0] == "open" {
+        bad("bb-sibling-lost", "the sibling upload got neither a response nor RST_STREAM within 6 s".into());
+    } else if !backend_conn_lost && !(status[0] == 200 && end[0] == "clean") {
+        bad("bb-sibling-hit", "the sibling request was not answered 200 although its backend connection stayed up".into());
+    }
+    Res { name, summary, viols }
+}
+
 /// Proxy-initiated GOAWAY: SoftStop with one idle connection and one connection holding an open stream.
 /// RFC 9113 6.8: GOAWAY(NO_ERROR) announces the shutdown; streams already open complete; new streams are
 /// refused (REFUSED_STREAM) without tearing the connection down; the connection is then released and the
@@ -571,6 +687,11 @@ fn main() {
     let h2_back = h2_listener.local_addr().unwrap();
     std::thread::spawn(move || h2c_backend(h2_listener));
     add_h2_cluster(&mut w, front, h2_back, "/h2");
+    let hf_listener = TcpListener::bind("127.0.0.1:0").unwrap();
+    let hf_back = hf_listener.local_addr().unwrap();
+    let (hf_tx, hf_rx) = std::sync::mpsc::channel::<String>();
+    std::thread::spawn(move || h2c_fault_backend(hf_listener, hf_tx));
+    add_h2_cluster_named(&mut w, front, hf_back, "/hf", "c2");
 
     if !probe(front) {
         println!("viol bb-infra the worker does not serve a well-formed request before any scenario");
@@ -581,12 +702,18 @@ fn main() {
     let results: Vec<Res> = std::thread::scope(|sc| {
         let mut hs: Vec<_> = scns.iter().map(|s| sc.spawn(move || run(front, s))).collect();
         hs.extend(sibs.iter().map(|s| sc.spawn(move || run_siblings(front, s))));
+        hs.extend(FAULTS.iter().filter(|n| only.as_deref().map_or(true, |o| o == **n)).map(|n| sc.spawn(move || run_fault(front, n))));
         hs.into_iter().map(|h| h.join().unwrap_or(Res { name: "?", summary: "scenario thread panicked".into(), viols: vec![("bb-infra".into(), "scenario thread panicked".into())] })).collect()
     });
     for r in &results {
         println!("obs {} {}", r.name, r.summary.replace(' ', "_"));
         for (c, t) in &r.viols {
             println!("viol {c} {t}");
+        }
+    }
+    if std::env::var_os("C15BB_DEBUG").is_some() {
+        for l in hf_rx.try_iter() {
+            println!("obs dbg fault-backend {l}");
         }
     }
     // the worker survived all of it and still serves
